@@ -1542,8 +1542,9 @@ fn read_subframes<R: BitRead>(
                 Some(side_bps) => {
                     read_subframe(&mut reader, side_bps, side)?;
 
+                    // untrusted data: reconstruction must not be range-checked
                     left.iter().zip(side.iter_mut()).for_each(|(left, side)| {
-                        *side = *left - *side;
+                        *side = left.wrapping_sub(*side);
                     });
                 }
                 None => {
@@ -1578,8 +1579,9 @@ fn read_subframes<R: BitRead>(
                     read_subframe(&mut reader, side_bps, side)?;
                     read_subframe(&mut reader, header.bits_per_sample.into(), right)?;
 
+                    // untrusted data: reconstruction must not be range-checked
                     side.iter_mut().zip(right.iter()).for_each(|(side, right)| {
-                        *side += *right;
+                        *side = side.wrapping_add(*right);
                     });
                 }
                 None => {
@@ -1616,10 +1618,12 @@ fn read_subframes<R: BitRead>(
                 Some(side_bps) => {
                     read_subframe(&mut reader, side_bps, side)?;
 
+                    // untrusted data: reconstruction must not be range-checked
+                    // (side & 1 is the parity of |side|, without abs() overflowing)
                     mid.iter_mut().zip(side.iter_mut()).for_each(|(mid, side)| {
-                        let sum = *mid * 2 + side.abs() % 2;
-                        *mid = (sum + *side) >> 1;
-                        *side = (sum - *side) >> 1;
+                        let sum = mid.wrapping_mul(2).wrapping_add(*side & 1);
+                        *mid = sum.wrapping_add(*side) >> 1;
+                        *side = sum.wrapping_sub(*side) >> 1;
                     });
                 }
                 None => {
